@@ -4,15 +4,13 @@ import PsdVerif.Model.Pixels
 namespace Driver.Pixels
 open PsdVerif PsdVerif.Pixels Driver
 
-def modeName : Mode → String
-  | .one => "1" | .L => "L" | .LA => "LA" | .RGB => "RGB" | .RGBA => "RGBA" | .CMYK => "CMYK"
+def modeName (m : Mode) : String := m.name
 
 def parseMode : String → Option Mode
   | "1" => some .one | "L" => some .L | "LA" => some .LA | "RGB" => some .RGB
   | "RGBA" => some .RGBA | "CMYK" => some .CMYK | _ => none
 
-def cmodeName : CMode → String
-  | .bitmap => "BITMAP" | .gray => "GRAYSCALE" | .rgb => "RGB" | .cmyk => "CMYK"
+def cmodeName (c : CMode) : String := c.name
 
 def parseCMode : String → Option CMode
   | "BITMAP" => some .bitmap | "GRAYSCALE" => some .gray | "RGB" => some .rgb | "CMYK" => some .cmyk
